@@ -17,6 +17,7 @@ import (
 // it builds is valid by construction (SearchQuery.checkValid accepts it and no
 // [Recursive]Contains shape error can arise at match time).
 type cgen struct {
+	visDates []time.Time // dates of the camliDefVis claims of the world
 	t *rapid.T
 	w *vw.World
 
@@ -36,6 +37,11 @@ func newCgen(t *rapid.T, w *vw.World) *cgen {
 		switch {
 		case b.Perm != nil:
 			g.permRefs = append(g.permRefs, rs)
+			for _, cl := range b.Perm.Claims {
+				if cl.Attr == "camliDefVis" && cl.Date.Unix() != 0 {
+					g.visDates = append(g.visDates, cl.Date)
+				}
+			}
 		case b.File != nil:
 			g.fileRefs = append(g.fileRefs, rs)
 		case b.Dir != nil:
@@ -254,8 +260,16 @@ func (g *cgen) permC(budget int) *search.PermanodeConstraint {
 	if g.p(20, "pAt") {
 		pc.At = g.instant("pAtT")
 	}
-	if g.p(12, "pSkipHidden") {
+	if g.p(18, "pSkipHidden") {
 		pc.SkipHidden = true
+		// visibility as of a past instant (often exactly the date of a claim): the hide claim has to be
+		// found by replaying the claims up to and including that instant
+		if pc.At.IsZero() && g.p(50, "pSkipHiddenAt") {
+			pc.At = g.instant("pSkipHiddenAtT")
+			if len(g.visDates) > 0 && g.p(50, "pAtVisClaim") {
+				pc.At = pick(g, g.visDates, "visClaimDate") // the instant of a visibility claim of this world
+			}
+		}
 	}
 	if g.p(12, "pModTime") {
 		pc.ModTime = g.timeC("pMod")
